@@ -95,7 +95,7 @@ FLIGHT_BUDGET = 30
 SIG = 64
 TOK = 64 + SIG
 CRAFT_MUT = ["none", "drop_root", "bad_token_sig", "bad_md_sig", "wrong_pointer", "foreign_tokens", "forged_att",
-             "self_att", "md_only", "tokens_only", "remd", "forged_tip_first"]
+             "self_att", "md_only", "tokens_only", "remd", "forged_tip_first", "tip_then_rest_later"]
 ATTEST_MODES = ["own", "third", "observed", "alt_ptr", "alt_sig", "short"]
 AA_SITE = "should_sign:already_attested"
 AA_SHADOW_SITE = "should_sign:already_attested:other_authority_on_same_metadata"
@@ -304,6 +304,7 @@ class Run:
         self.viols: list[Violation] = []
         self.flags: set[str] = set()
         self.wire_atts: list[tuple[int, bytes]] = []   # (signer idx, attestation bytes) seen on the wire
+        self.held_rest: dict[tuple[int, int], bytes] = {}
         self.stats = {"attest_emitted": 0, "own_tokens_on_wire": 0, "rows": 0, "cut": 0, "delivered": 0,
                       "must_attest": 0, "must_store": 0}
 
@@ -575,6 +576,9 @@ class Run:
         elif kind == "craft":
             self.craft(*op[1:])
             self.pump()
+        elif kind == "rest":
+            self.rest(op[1], op[2])
+            self.pump()
         elif kind == "attest":
             self.attest(*op[1:])
             self.pump()
@@ -692,8 +696,19 @@ class Run:
             if below:
                 self.send_as(x, y, pl.MissingResponsePayload(b"".join(below)))
             return
+        if mutation == "tip_then_rest_later":
+            # nothing is altered: the metadata and the tip of the chain are disclosed now, the tokens below the tip are
+            # held back until a later "rest" operation (a slow or stalling subject)
+            self.held_rest[(x, y)] = b"".join(tok_blobs[:-1])
+            tok_blobs = tok_blobs[-1:]
         md_field = b"" if mutation == "tokens_only" else struct.pack(">I", len(md_blob)) + md_blob
         self.send_as(x, y, pl.DisclosePayload(md_field, b"".join(tok_blobs), atts, auths))
+
+    def rest(self, x: int, y: int) -> None:
+        from ipv8.attestation.identity import payload as pl
+        blob = self.held_rest.pop((x, y), None)
+        if blob is not None:
+            self.send_as(x, y, pl.MissingResponsePayload(blob))
 
     def attest(self, x: int, y: int, mode: int, k: int) -> None:
         from ipv8.attestation.identity import payload as pl
@@ -830,9 +845,29 @@ def family_e3(quick: bool):
         yield [["reg", A, 1, 0, S2, 0], ["craft", S2, A, mut, 1, [2, 0, 1], 0, 0, 0, 0]]
 
 
+def family_e4(quick: bool):
+    """
+    A subject that stalls: metadata and tip of a valid chain first, the tokens below it later - before and after the
+    registration has lapsed (waits in seconds: 1, 100, 150, 200, 299, 300, 301, 1000).
+    """
+    mut = CRAFT_MUT.index("tip_then_rest_later")
+    for w1, w2, hs, own in itertools.product((None, 1, 2, 3, 4), (None, 1, 2, 3, 4, 6), ([0, 1], [2, 0, 1]), (0, 1)):
+        ops = [["reg", A, 1, 0, S2, 0]]
+        if own:
+            # the subject's own chain: two honest advertisements to somebody else first, so that its chain has depth
+            ops += [["reg", M, 0, 0, S2, 0], ["adv", S2, M, 0, 0, 0]]
+        if w1 is not None:
+            ops.append(["wait", w1])
+        ops.append(["craft", S2, A, mut, 1, hs, 0, 0, 0, 0])
+        if w2 is not None:
+            ops.append(["wait", w2])
+        ops.append(["rest", S2, A])
+        yield ops
+
+
 def _families(quick: bool) -> list:
     out = []
-    for fam in (family_e1, family_e2, family_e3):
+    for fam in (family_e1, family_e2, family_e3, family_e4):
         out.extend(fam(quick))
     return out
 
@@ -895,7 +930,8 @@ def _strategy(max_ops: int):
     matched = st.tuples(pair_sa, h, nm, st.sampled_from([0, 0, 0, 2, 1]),
                         st.sampled_from([None, None, None, None, "hash", "name", "meta", "key"]),
                         st.sampled_from([None, None, None, 0, 5, 6])).map(make_matched)
-    single = st.one_of(reg, adv, adv, craft, attest, reqmiss, replay, replay, wait).map(lambda o: [o])
+    rest = pair_sa.map(lambda t: ["rest", t[0], t[1]])
+    single = st.one_of(reg, adv, adv, craft, attest, reqmiss, replay, replay, wait, rest).map(lambda o: [o])
     # optional preamble: the situation of why_tests_cant - one attester holding live registrations for two
     # different subject keys, one of which already has its own attribute attested
     def make_two(t):
